@@ -34,7 +34,8 @@
 (***************************************************************************)
 EXTENDS Naturals, Sequences, FiniteSets, TLC, Json
 
-CONSTANTS Options,   \* <<[key, kind, vk, short, abbrev, destkey, extra]>>  extra: the falsy slots (0, 3, 4) the option accepts
+CONSTANTS Options,   \* <<[key, kind, vk, short, abbrev, destkey, extra, names]>>  extra: the falsy slots (0, 3, 4) the option
+                     \* accepts; names: how many long names the option has (--add-package / --add-module: 2)
           Formats,   \* subset of {"toml", "cfg", "ini"}: pyproject.toml, setup.cfg, pydoctor.ini
           ShortKeys, \* the one-letter names of the parser's short flags (v, q, W ...): as KEYS of a file they are unknown
           Vias       \* how the file is found: "default" (by its name, in the working directory) | "config" (--config=PATH)
@@ -80,18 +81,28 @@ FileStyles(o, fmt, file) ==
 Unknowns(o, i, cli) == {"none"} \cup (IF cli.has THEN {} ELSE {"fresh"} \cup (IF o.destkey THEN {"dest"} ELSE {})
                                                             \cup (IF i = 1 THEN ShortKeys ELSE {}))
 
+\* where in the file the setting stands.  Every format recognises the sections tool.pydoctor, tool:pydoctor and
+\* pydoctor:  main = the format's usual one, alone ; alt = another recognised one, alone ;
+\* emptyMain = the usual section is present but holds nothing (a comment), the setting stands in the other one.
+\* "A section that holds nothing sets nothing": the effective value is the same in all three.
+Places(file, cli, unk) == {"main"} \cup (IF file.has /\ ~cli.has /\ unk = "none" THEN {"alt", "emptyMain"} ELSE {})
+\* which of its names the option is given by, in the file and on the command line (1 = the first)
+NamePairs(o, file, cli) ==
+  {<<f, c>> \in (1..o.names) \X (1..o.names) : (file.has \/ f = 1) /\ (cli.has \/ c = 1)}
+
 VARIABLES s
 vars == <<s>>
-Scenario(i, fmt, via, file, fstyle, cli, spell, unk) ==
+Scenario(i, fmt, via, file, fstyle, cli, spell, unk, place, np) ==
   [opt |-> i, key |-> Options[i].key, kind |-> Options[i].kind, fmt |-> fmt, via |-> via, file |-> file,
-   fstyle |-> fstyle, cli |-> cli, spell |-> spell, unknown |-> unk]
+   fstyle |-> fstyle, cli |-> cli, spell |-> spell, unknown |-> unk, place |-> place, fname |-> np[1], cname |-> np[2]]
 
 Init == \E i \in 1..Len(Options), fmt \in Formats, via \in Vias :
           \E file \in FileChoices(Options[i]), cli \in CliChoices(Options[i]) :
             \E fstyle \in FileStyles(Options[i], fmt, file), spell \in Spellings(Options[i], cli),
                unk \in Unknowns(Options[i], i, cli) :
-              /\ file.has \/ cli.has \/ unk # "none"
-              /\ s = Scenario(i, fmt, via, file, fstyle, cli, spell, unk)
+              \E place \in Places(file, cli, unk), np \in NamePairs(Options[i], file, cli) :
+                /\ file.has \/ cli.has \/ unk # "none"
+                /\ s = Scenario(i, fmt, via, file, fstyle, cli, spell, unk, place, np)
 Next == UNCHANGED vars
 Spec == Init /\ [][Next]_vars
 
